@@ -330,13 +330,28 @@ func (c *immuClient) _streamVerifiedGet(ctx context.Context, req *schema.Verifia
 	var vTx uint64
 	var e *store.EntrySpec
 
+	// the returned entry must be the one being proven: requested key, at the requested transaction
 	if vEntry.Entry.ReferencedBy == nil {
 		vTx = vEntry.Entry.Tx
+
+		if !bytes.Equal(vEntry.Entry.Key, req.KeyRequest.Key) {
+			return nil, store.ErrCorruptedData
+		}
+
 		e = database.EncodeEntrySpec(req.KeyRequest.Key, schema.KVMetadataFromProto(vEntry.Entry.Metadata), vEntry.Entry.Value)
 	} else {
 		ref := vEntry.Entry.ReferencedBy
 		vTx = ref.Tx
-		e = database.EncodeReference(ref.Key, schema.KVMetadataFromProto(ref.Metadata), vEntry.Entry.Key, ref.AtTx)
+
+		if !bytes.Equal(ref.Key, req.KeyRequest.Key) {
+			return nil, store.ErrCorruptedData
+		}
+
+		e = database.EncodeReference(req.KeyRequest.Key, schema.KVMetadataFromProto(ref.Metadata), vEntry.Entry.Key, ref.AtTx)
+	}
+
+	if req.KeyRequest.AtTx != 0 && req.KeyRequest.AtTx != vTx {
+		return nil, store.ErrCorruptedData
 	}
 
 	if state.TxId <= vTx {
